@@ -19,6 +19,8 @@ LINES10 = ['L_a', 'L_iia', 'L_lb', 'L_ilb', 'L_uk', 'L_e', 'L_sp', 'L_cm', 'L_al
 VERBL = ['L_a', 'L_iia', 'L_lb', 'L_ilb', 'L_vrb', 'vrb', 'vrb2', 'b', 'sp', 'L_cm', 'L_ob', 'L_cb', 'add', 'cb', 'fn']
 # the end of a macro argument: what stands there must not act on the text behind the argument
 ARGEND = ['a', 'sp', 'nl', 'uk', 'lb', 'tc', 'add', 'flD', 'cb', 'L_cb', 'fn']
+# vanishing constructs alone on a line inside a detached flow (the line removal must run there, too)
+FLOWLINES = ['fn', 'cap', 'cb', 'L_a', 'L_lb', 'L_cm', 'L_uk', 'a', 'sp']
 ARGEND7 = ['a', 'nl', 'sp', 'flD', 'tc', 'cb', 'uk']
 M1 = ['a', 'sp', 'dB', 'uB', 'uBt', 'cb', 'rB']
 M2 = ['a', 'dC', 'uC', 'uCo', 'ocb', 'cb']
@@ -31,10 +33,10 @@ CITEO = ['a', 'sp', 'cto', 'ctc', 'ob', 'cb', 'rbk', 'b']
 INL1 = ['a', 'sp', 'mo', 'mc', 'my', 'mpl', 'mdt', 'msp', 'mfr']
 INL2 = ['a', 'mo', 'mc', 'mo2', 'mc2', 'my', 'mw', 'meq', 'mal', 'msb', 'mti', 'mcm', 'mob', 'mcb', 'fn', 'cb', 'add', 'it', 'bi', 'ei', 'sec']
 INL3 = ['mo', 'mc', 'my', 'mdt', 'a', 'fn', 'cb']
-INLALL = sorted(set(INL1 + INL2 + ['nl', 'lb', 'uk', '.', 'vbd', 'vbb']))
+INLALL = sorted(set(INL1 + INL2 + ['nl', 'lb', 'uk', '.', 'vbd', 'vbb', 'dI', 'uI', 'im']))
 DSP1 = ['ba', 'ea', 'my', 'mdt', 'meq', 'mam', 'mnl']
 DSP2 = ['ba', 'ea', 'my', 'mdt', 'mcm', 'meq', 'mpl', 'mtx', 'msp', 'mlb', 'mam', 'mnl']
-DSP3 = ['a', 'ba', 'ea', 'bq', 'eq', 'bd', 'ed', 'bdd', 'edd', 'my', 'mw', 'mdt', 'meq', 'mtx', 'mnn', 'mlb', 'mfr', 'mal', 'msb', 'mti', 'mob', 'mcb', 'mam', 'mnl']
+DSP3 = ['a', 'ba', 'ea', 'bat', 'eat', 'bq', 'eq', 'bd', 'ed', 'bdd', 'edd', 'my', 'mw', 'mdt', 'meq', 'mtx', 'mnn', 'mlb', 'mfr', 'mal', 'msb', 'mti', 'mob', 'mcb', 'mam', 'mnl']
 DSPALL = sorted(set(DSP3 + DSP2 + ['sp', 'nl', 'mo', 'mc']))
 FAULTS = ['Fim', 'FimE', 'Fdm', 'FdmE', 'FeqE', 'FargE', 'FoptE', 'FvbE', 'FveE', 'Fsk', 'Facc', 'FaccD', 'FaccI', 'Flt']
 FLT2 = ['ltE', 'ltD', 'uA', 'a', 'b', 'sp', 'nl', 'cm', 'lb', 'uk', 'ob', 'cb', 'fn', 'sec', 'im', 'add', 'it', 'bi', 'ei', 'vb', 'vbd', 'vbb', 'tie', 'skb', 'ske', 'q', 'mo', 'mc', 'my', 'bd', 'ed'] + FAULTS
@@ -42,7 +44,7 @@ EXTR = ['alt', 'acb', 'a', 'b', 'sp', 'nl', 'fn', 'xo', 'cap', 'cb', 'uk', 'ob',
 UNKN = ['ntm', 'bth', 'eth', 'hsu', 'phu', 'a', 'sp', 'uk', 'uk2', 'bu', 'eu', 'xo', 'cb', 'ob', 'fn', 'sec', 'add', 'tc', 'cmu', 'skb', 'ske', 'q', 'mo', 'mc', 'mal', 'my', 'bd', 'ed', 'dA', 'uA', 'dB', 'uB', 'uC', 'dC', 'lb', 'it', 'bi', 'ei', 'vb']
 COPY = ['acc', 'tbs', 'itl', 'ilc', 'bi', 'ei', 'a', 'b', '.', 'sp', 'nl', 'cm', 'ob', 'cb', 'uk', 'add', 'fbx', 'tc', 'fn', 'cap', 'vb', 'vbd', 'vbb', 'tie', 'nd', 'md', 'lq', 'rq',
         'thin', 'pct', 'amp', 'dol', 'hsh', 'usc', 'lbr', 'rbr', 'lb', 'sec', 'im']
-PROSE = ['vbd', 'vbb', 'fct', 'ntm', 'bth', 'eth', 'itl', 'ilc', 'bp', 'ep', 'bt', 'et', 'tamp', 'tbsl', 'capo', 'seco', 'hsu', 'phu', 'alt', 'acb', 'ltD', 'uA', 'up', 'cto', 'ctc', 'a', 'b', '!', 'sp', 'nl', 'cm', 'uk', 'uk2', 'ob', 'cb', 'add', 'tc', 'fn', 'cap', 'sec', 'sub', 'bi', 'ei', 'be', 'ee', 'it',
+PROSE = ['gle', 'vbd', 'vbb', 'fct', 'ntm', 'bth', 'eth', 'itl', 'ilc', 'bp', 'ep', 'bt', 'et', 'tamp', 'tbsl', 'capo', 'seco', 'hsu', 'phu', 'alt', 'acb', 'ltD', 'uA', 'up', 'cto', 'ctc', 'a', 'b', '!', 'sp', 'nl', 'cm', 'uk', 'uk2', 'ob', 'cb', 'add', 'tc', 'fn', 'cap', 'sec', 'sub', 'bi', 'ei', 'be', 'ee', 'it',
          'bu', 'eu', 'skb', 'ske', 'q', 'fnq', 'skp', 'bl', 'el', 'lb', 'ix', 'cite', 'ref', 'im', 'imp', 'par', 'bm', 'em']
 GENER = ['fct', 'ntm', 'bth', 'eth', 'itl', 'ilc', 'bp', 'ep', 'tamp', 'bt', 'et', 'hsp', 'phn', 'tbs', 'dB', 'dC', 'uB', 'uBt', 'uC', 'a', '.', 'sp', 'nl', 'ref', 'cite', 'im', 'imp', 'it', 'bi', 'ei', 'be', 'ee', 'sec', 'sub', 'fn', 'cap', 'cb', 'par', 'bm', 'em', 'lb', 'uk']
 
@@ -54,27 +56,27 @@ CONFIG = {
                 sim=(COPY, 300, 3000)),
     'C03': dict(key='c03', focus={'fn', 'cap', 'sec', 'sub', 'it', 'skb', 'skp', 'bl', 'add', 'tc', 'cite', 'im', 'cm', 'uk', 'bu'},
                 quick=[(PROSE, 3, 2), (['a', 'b', 'sp', 'uk', 'ob', 'cb', 'add', 'fn', 'sec', 'bi', 'ei', 'it', 'skp', 'cm', 'im'], 4, 3),
-                       (CITEO, 6, 3), (['a', 'sp', 'fn', 'cap', 'cb', 'up', 'tc', 'lb'], 5, 2), (M3, 4, 2)],
+                       (CITEO, 6, 3), (['a', 'sp', 'fn', 'cap', 'cb', 'up', 'tc', 'lb'], 5, 2), (M3, 4, 2), (['a', 'sp', 'nl', 'gle', 'gld', 'glsC', 'fn', 'cb', 'sec'], 4, 2)],
                 thorough=[(PROSE, 4, 3), (['a', 'b', 'sp', 'uk', 'ob', 'cb', 'add', 'fn', 'sec', 'bi', 'ei', 'it', 'skp', 'cm', 'im'], 5, 3),
                           (CITEO, 8, 3), (['a', 'sp', 'fn', 'cap', 'cb', 'up', 'tc', 'lb'], 7, 2), (M3, 6, 2)],
                 sim=(PROSE, 300, 3000)),
     'C04': dict(key='c04', focus={'gls', 'uA', 'uB', 'uBt', 'uC', 'uCo', 'uD', 'uG', 'uF', 'ref', 'cite', 'im', 'imp', 'it', 'sec', 'sub', 'fn', 'cap', 'par', 'bm'},
                 quick=[(GENER, 3, 2), (['a', 'sp', 'nl', 'ref', 'cite', 'im', 'it', 'be', 'ee', 'sec', 'fn', 'cb', 'par'], 4, 2),
-                       (M1, 6, 2), (M2, 7, 2), (M3, 5, 2), (M4, 5, 2), (M5, 5, 2), (['a', 'sp', 'gld', 'gls', 'nl', 'fn', 'cb'], 6, 2)],
+                       (M1, 6, 2), (M2, 7, 2), (M3, 5, 2), (M4, 5, 2), (M5, 5, 2), (['a', 'sp', 'gld', 'gls', 'glsC', 'glsU', 'nl', 'fn', 'cb'], 5, 2), (['a', 'gld', 'gls', 'glsC', 'gle', 'sp'], 6, 1)],
                 thorough=[(GENER, 4, 3), (['a', 'sp', 'nl', 'ref', 'cite', 'im', 'it', 'be', 'ee', 'sec', 'fn', 'cb', 'par'], 5, 3),
-                          (M1, 8, 2), (M2, 9, 2), (M3, 6, 2), (M4, 7, 2)],
-                sim=(GENER, 300, 3000)),
+                          (M1, 8, 2), (M2, 9, 2), (M3, 6, 2), (M4, 7, 2), (['a', 'sp', 'gld', 'gls', 'glsC', 'glsU', 'gle', 'nl', 'fn', 'cb'], 6, 2)],
+                sim=(GENER + ['gld', 'gls', 'glsC', 'glsU', 'gle'], 300, 3000)),
     'C09': dict(key='c09', focus={'uA', 'uB', 'uBt', 'uC', 'uCo', 'uD', 'uE', 'uG', 'uF'},
                 quick=[(M1, 6, 2), (M2, 7, 2), (M3, 5, 2), (M4, 5, 2), (M5, 5, 2), (M6, 5, 1)],
                 thorough=[(M1, 8, 2), (M2, 9, 2), (M3, 6, 2), (M4, 7, 2), (M5, 7, 2), (M6, 7, 1), (MALL, 4, 2)],
                 sim=(MALL, 300, 3000), routes=True),
     'C10': dict(key='c10', focus={'mo', 'mo2'},
-                quick=[(INL1, 7, 2), (INL2, 5, 3), (INL3, 9, 2)],
-                thorough=[(INL1, 9, 2), (INL2, 6, 3), (INL3, 11, 2)],
+                quick=[(INL1, 7, 2), (INL2, 5, 3), (INL3, 9, 2), (['a', 'sp', 'im', 'dI', 'uI', 'sec', 'cb'], 6, 2)],
+                thorough=[(INL1, 9, 2), (INL2, 6, 3), (INL3, 11, 2), (['a', 'sp', 'im', 'dI', 'uI', 'sec', 'cb', 'fn'], 7, 2)],
                 sim=(INLALL, 300, 3000), variants=[{}, {'lang': 'de'}, {'lang': 'ru'}]),
     'C11': dict(key='c11', focus={'ba', 'bq', 'bd', 'bdd'},
-                quick=[(DSP1, 6, 1), (DSP2, 5, 1), (DSP3, 4, 1)],
-                thorough=[(DSP1, 8, 1), (DSP2, 6, 1), (DSP3, 5, 1)],
+                quick=[(DSP1, 6, 1), (DSP2, 5, 1), (DSP3, 4, 1), (['bat', 'eat', 'my', 'mdt', 'meq', 'mam', 'mnl', 'a'], 6, 1)],
+                thorough=[(DSP1, 8, 1), (DSP2, 6, 1), (DSP3, 5, 1), (['bat', 'eat', 'my', 'mdt', 'meq', 'mam', 'mnl', 'a', 'mtx'], 7, 1)],
                 sim=(DSPALL, 300, 3000), variants=[{}, {'lang': 'de'}, {'lang': 'ru', 'seqs': True}, {'seqs': True}]),
     'C08': dict(key='c08', focus=set(FAULTS),
                 quick=[(['a', 'sp', 'nl', 'lb'] + FAULTS, 4, 1), (['a', 'nl', 'ltE', 'ltD'] + FAULTS, 3, 1), (FLT2, 3, 2), (['a', 'nl'] + FAULTS, 5, 1), (['a', 'sp', 'vbd', 'vbb', 'im', 'ob', 'cb', 'bi', 'ei', 'it'], 4, 2)],
@@ -89,8 +91,8 @@ CONFIG = {
                 thorough=[(UNKN, 4, 3), (['a', 'uk', 'uk2', 'bu', 'eu', 'fn', 'cb', 'mo', 'mal', 'my', 'mc', 'cmu', 'skb', 'ske', 'uB', 'dB'], 6, 2)],
                 sim=(UNKN, 300, 3000), variants=[{'unkn': True}, {'unkn': True, 'pack': '*'}, {'unkn': True, 'repl': ['foo & zzz', 'unk & a b', 'bar mb & x']}]),
     'C05': dict(key='c05', focus={'sp', 'nl', 'cm', 'tab', 'par', 'bm', 'bl', 'skb', 'lb', 'uk'},
-                quick=[(LAYOUT, 5, 1), (LAYOUT2, 3, 2), (['a', 'sp', 'nl', 'cm', 'lb', 'uk', 'ob', 'cb', 'skp', 'par', 'tab'], 4, 2), (LINES10, 4, 1), (LINES, 3, 2), (ARGEND, 4, 2), (ARGEND7, 6, 2)],
-                thorough=[(LAYOUT, 6, 1), (LAYOUT2, 4, 2), (['a', 'sp', 'nl', 'cm', 'lb', 'uk', 'ob', 'cb', 'skp', 'par', 'tab'], 5, 2), (LINES10, 5, 1), (LINES, 4, 2), (ARGEND, 5, 2), (ARGEND7, 7, 2)],
+                quick=[(LAYOUT, 5, 1), (LAYOUT2, 3, 2), (['a', 'sp', 'nl', 'cm', 'lb', 'uk', 'ob', 'cb', 'skp', 'par', 'tab'], 4, 2), (LINES10, 4, 1), (LINES, 3, 2), (ARGEND, 4, 2), (ARGEND7, 6, 2), (FLOWLINES, 5, 2)],
+                thorough=[(LAYOUT, 6, 1), (LAYOUT2, 4, 2), (['a', 'sp', 'nl', 'cm', 'lb', 'uk', 'ob', 'cb', 'skp', 'par', 'tab'], 5, 2), (LINES10, 5, 1), (LINES, 4, 2), (ARGEND, 5, 2), (ARGEND7, 7, 2), (FLOWLINES, 6, 2)],
                 sim=(LAYOUT2 + ['tc', 'add', 'flD'], 300, 3000)),
 }
 OPTS = {'pack': 'xcolor,listings,amsmath,glossaries,amsthm,biblatex,babel'}
@@ -109,6 +111,11 @@ def project(rec):
 
 
 DEFSYMS = {'rA', 'dA', 'dB', 'dC', 'dD', 'dE', 'dF', 'dG', 'rB', 'dH'}
+
+
+def drive_chunk(chunk):
+    """cases that read the same definition file, one after the other in one process: the file is rewritten before each"""
+    return [drive_routes(cs) for cs in chunk['cases']]
 
 
 def drive_routes(case):
@@ -140,8 +147,24 @@ def generate(c, confs, sim, tier):
     r = c.tlc('generator S(%d,60)' % num, 'Gen', cfg, simulate=num * 4, depth=60, seed=c.seed, workers=4)
     for b in r.json('@@'):
         seen.setdefault(tuple(b['doc']), b)
+    nsim = len(seen) - nex
+    # focused simulation (GenPair.tla): documents over all symbols of this property's alphabets in which two or three constructs
+    # (besides letters, blanks, line breaks and braces) meet in many arrangements
+    if MODE == 'normal':
+        allsyms = set(syms)
+        for (ss, n, d) in confs:
+            allsyms |= set(ss)
+        pnum = 1500 if tier == 'quick' else 25000
+        cfg = tlc.cfg_text(spec='PSpec', constants={'Sym': allsyms, 'MaxSym': 9, 'MaxDepth': 3, 'Free': False, 'Mode': MODE,
+                                                    'Base': {'a', 'b', 'sp', 'nl', 'cb', 'ob'} & allsyms | {'a'}, 'MaxSpecial': 3},
+                           invariants=['SrcIsConc', 'AnchorsInSrc', 'PDump'])
+        r = c.tlc('focused generator P(%d): <= 3 special symbols per document, %d symbols' % (pnum, len(allsyms)), 'GenPair', cfg, simulate=pnum,
+                  depth=12, seed=c.seed, workers=8)
+        for b in r.json('@@'):
+            seen.setdefault(tuple(b['doc']), {'doc': b['doc'], 'src': b['src']})
     c.extra['documents_exhaustive'] = nex
-    c.extra['documents_simulated'] = len(seen) - nex
+    c.extra['documents_simulated'] = nsim
+    c.extra['documents_focused_simulation'] = len(seen) - nex - nsim
     return list(seen.values())
 
 
@@ -165,6 +188,11 @@ def run(prop, tier, seed, replay=None):
     c.rule = ('documents = all well-formed symbol sequences of Doc.tla over the listed symbol sets up to the listed length '
               '(TLC, exhaustive) plus TLC-simulated longer ones; each is run through the real tex2txt and the observation '
               'is judged by Obs.tla; non-trivial = distinct source text containing at least one focus construct of the property')
+    if replay and 'rules' in json.load(open(replay))['case']:      # a case of the --repl phase of C02
+        from checks import replace
+        replace.doc_phase(c, tier, [], replay_case=json.load(open(replay))['case'])
+        c.exhaustive = False
+        return c.finish()
     if replay:
         case = json.load(open(replay))['case']
         beh = [{'doc': case['doc'], 'src': case['src'], 'ndef': case.get('ndef', 0), 'prefix': case.get('prefix', []), 'files': case.get('files')}]
@@ -186,6 +214,8 @@ def run(prop, tier, seed, replay=None):
         tab = total.conc_table()
         scratch = tempfile.mkdtemp(prefix='yvd')
         extra = []
+        chunks = []
+        ninp = 0
         for cs in cases:
             n = 0
             while n < len(cs['doc']) and cs['doc'][n] in DEFSYMS:
@@ -195,13 +225,21 @@ def run(prop, tier, seed, replay=None):
             block = [ch for s in cs['doc'][:n] for ch in tab[s]]
             rest = cs['src'][len(block):]
             extra.append(dict(cs, id='%s.defs' % cs['id'], src=rest, ndef=n, prefix=[], opts=dict(OPTS, defs=chars.dec(block))))
-            path = os.path.join(scratch, 'd%s.tex' % cs['id'])
+            # three consecutive cases share one file name and run in sequence in one process: a definition file is read
+            # afresh by every conversion
+            path = os.path.join(scratch, 'd%06d.tex' % (ninp // 3))
             pre = chars.enc('\\LTinput{%s}' % path)
-            extra.append(dict(cs, id='%s.input' % cs['id'], src=pre + rest, ndef=n, prefix=pre, files={path: chars.dec(block)}))
+            if ninp % 3 == 0:
+                chunks.append({'cases': []})
+            chunks[-1]['cases'].append(dict(cs, id='%s.input' % cs['id'], src=pre + rest, ndef=n, prefix=pre, files={path: chars.dec(block)}))
+            ninp += 1
         cases += extra
-        c.extra['route_cases'] = len(extra)
+        c.extra['route_cases'] = len(extra) + ninp
     try:
         recs = c.drive(cases, drive_routes)
+        if scratch:
+            for lst in c.drive(chunks, drive_chunk, chunksize=8):
+                recs += lst
     finally:
         if scratch:
             import shutil
@@ -231,6 +269,9 @@ def run(prop, tier, seed, replay=None):
     if prop in ('C05', 'C02') and not replay:
         from checks import lines
         lines.phase(c, tier, 'text' if prop == 'C05' else 'positions', beh, OPTS)
+    if prop == 'C02' and not replay:
+        from checks import replace
+        replace.doc_phase(c, tier, beh)
     if prop == 'C18' and not replay:
         from checks import include18
         include18.phase(c, tier)
